@@ -585,11 +585,17 @@ def run_api_steps(ctx, tmp, thorough, seqs=None):
                     stats["while_open"] += 1
             i = compare_steps(x, y)
             if i is not None:
+                # prefer the first step whose RESULT differs (visible through the backend API itself: stat, a second
+                # handle, ...) over the first step after which only the on-disk tree differs
+                j = compare_steps([a[0] for a in x], [b[0] for b in y])
+                tree_only = j is None
+                i = i if tree_only else j
                 st = steps[i] if i < len(steps) else ("h_close", "at-end")
                 ctx.violation(
-                    f"PathIO and AsyncPathIO differ on step {i} ({st[0]}) of a sequence with a handle still open",
-                    {"key": f"api-two-way-steps:{st[0]}", "kind": "api-steps", "tree": D.tree_json(STEP_TREE),
-                     "steps": op_json(steps), "step": i,
+                    f"PathIO and AsyncPathIO differ on step {i} ({st[0]}) of a primitive-step sequence"
+                    + (" (tree on disk only)" if tree_only else " (result of the operation)"),
+                    {"key": f"api-two-way-steps:{'tree-after:' if tree_only else ''}{st[0]}", "kind": "api-steps",
+                     "tree": D.tree_json(STEP_TREE), "steps": op_json(steps), "step": i,
                      "pathio": [D.obs_json(x[i][0]), D.tree_json(x[i][1])] if i < len(x) else None,
                      "asyncpathio": [D.obs_json(y[i][0]), D.tree_json(y[i][1])] if i < len(y) else None},
                 )
